@@ -1,12 +1,82 @@
 import HcipyVerif.Model.Proto
+import HcipyVerif.Model.Cache
 
-/-! Line-protocol front end of the C05 model (stub: not built yet). -/
+/-!
+Line-protocol front end of the C05 model.
+
+```
+new <gridDep 0|1> <wlDep 0|1> <maxN>      start a freshly constructed element
+req <i|-> <o|-> <w|-> <gi|-> <go|->       get_instance_data(i, o, w); gi = id of
+                                          get_input_grid(o, w) and go = id of get_output_grid(i', w)
+                                          as observed on a *fresh* element ('-' = None / not needed)
+clear                                     clear_cache()
+set                                       a public setter (version bump + clear_cache())
+memo reset | memo get <tag> <drop 0|1>    memo cell (matrices_dtype etc.), compute = identity on tags
+```
+Responses: `ok <how> id=<n> key=<i>,<o>,<w> ver=<v> num=<n> cache=<i>,<o>,<w>:<id>;…` | `err value` |
+`err key`.
+-/
 namespace HcipyVerif.Driver.C05
+open HcipyVerif.Proto HcipyVerif.Cache
 
 structure St where
-  dummy : Unit := ()
+  gridDep : Bool := true
+  wlDep : Bool := true
+  maxN : Nat := 11
+  st : Cache.St := Cache.St.init 0
+  memo : Memo Nat Nat := ⟨none⟩
+
+def parseOptNat? (s : String) : Option (Option Nat) :=
+  if s == "-" then some none else (parseNat? s).map some
+
+def parseBool? (s : String) : Option Bool :=
+  if s == "1" then some true else if s == "0" then some false else none
+
+def showOpt : Option Nat → String
+  | none => "-"
+  | some n => toString n
+
+def showKey (k : Key) : String := s!"{showOpt k.i},{showOpt k.o},{showOpt k.w}"
+
+def showCache (c : List (Key × Inst)) : String :=
+  ";".intercalate (c.map fun p => s!"{showKey p.1}:{p.2.id}")
+
+def showHow : How → String
+  | .hitRequest => "hit-request" | .hitFull => "hit-full" | .created => "created"
+
+def showState (s : Cache.St) : String := s!"ver={s.ver} num={s.num} cache={showCache s.cache}"
 
 def step (st : St) : List String → St × String
+  | ["new", g, w, n] =>
+    match parseBool? g, parseBool? w, parseNat? n with
+    | some g, some w, some n => ({ gridDep := g, wlDep := w, maxN := n }, "ok")
+    | _, _, _ => (st, "bad-op")
+  | ["req", i, o, w, gi, go] =>
+    match parseOptNat? i, parseOptNat? o, parseOptNat? w, parseOptNat? gi, parseOptNat? go with
+    | some i, some o, some w, some gi, some go =>
+      let e : Elem := { gridDep := st.gridDep, wlDep := st.wlDep, maxN := st.maxN,
+                        getIn := fun _ _ _ => gi, getOut := fun _ _ _ => go }
+      match getInstanceDataHow e st.st i o w with
+      | .error .value => (st, "err value")
+      | .error .key => (st, "err key")
+      | .ok (s', v, how) =>
+        ({ st with st := s' },
+          s!"ok {showHow how} id={v.id} key={showKey v.key} ver={v.ver} num={s'.num} cache={showCache s'.cache}")
+    | _, _, _, _, _ => (st, "bad-op")
+  | ["clear"] =>
+    let s' := st.st.clear
+    ({ st with st := s' }, "ok " ++ showState s')
+  | ["set"] =>
+    let s' := st.st.setParam
+    ({ st with st := s' }, "ok " ++ showState s')
+  | ["memo", "reset"] => ({ st with memo := ⟨none⟩ }, "ok")
+  | ["memo", "get", t, d] =>
+    match parseNat? t, parseBool? d with
+    | some t, some d =>
+      let r := st.memo.get id t
+      let m := if d then r.1.drop else r.1
+      ({ st with memo := m }, s!"ok val={r.2} slot={showOpt (m.slot.map (·.1))}")
+    | _, _ => (st, "bad-op")
   | _ => (st, "bad-op")
 
 end HcipyVerif.Driver.C05
